@@ -21,7 +21,10 @@ THEOREMS = ["CKT.C01." + t for t in ["expansion", "blocks_factor", "pair_prod_fa
                                         "linRun_eq_runOps", "decoded_eq", "reconstruction_correct", "runI_eq_actL", "SubExp.ofInstrs_final"]] + \
            ["CKT.Sem.signed_run", "CKT.Sem.decode_full", "CKT.Sem.meas_signed", "CKT.Sem.decode_blocks",
             # ... and that decoded number is what C06's accumulator loop returns on the exact quasi-distribution of the subexperiment
-            "CKT.C06Sem.estimator_is_signedSum", "CKT.C01PTM.decoded_is_estimator"]
+            "CKT.C06Sem.estimator_is_signedSum", "CKT.C01PTM.decoded_is_estimator",
+            # the maps as the operation sequences that are spliced in (C14): products of transfer matrices = seqPtm of the channel model
+            "CKT.C01PTM.runOps_seq", "CKT.C01PTM.seqSlot_eq_cutSlot", "CKT.C01PTM.cut_and_reconstruct_seq", "CKT.C01PTM.tmOf1_seqPtm",
+            "CKT.C01PTM.exact_of_exactAt_seq", "CKT.C01PTM.SGate.exact_seq", "CKT.C01PTM.supported_round_trip_seq"]
 RULE = ("cut problems on 1-5 qubits, 1-4 partitions, 0-2 cut gates of every family (incl. KAK gates), idle qubits, explicit and automatic labels, "
         "separated and single-circuit call forms, duplicate / identity observables; every subexperiment evaluated exactly by the harness's own "
         "density-matrix simulator; compared: the model's reconstruction (exact rationals) of those distributions with the implementation's, and "
